@@ -854,7 +854,8 @@ func (s *sharedEntryAttributes) Validate(ctx context.Context, resultChan chan<- 
 	}
 
 	// validate the mandatory statement on this entry
-	if s.remainsToExist() {
+	// (an entry that is deleted on the device does not remain, even though its running values are still loaded)
+	if s.remainsToExist() && !s.shouldDelete() {
 		if !vCfg.DisabledValidators.Mandatory {
 			s.validateMandatory(ctx, resultChan)
 		}
